@@ -57,7 +57,7 @@ class C07(CheckBase):
     id = 'C07'
     level = 'exploration'
     line_allow = ('sdc11073/provider/porttypes/getserviceimpl.py', 'sdc11073/provider/porttypes/contextserviceimpl.py',
-                  'sdc11073/mdib/mdibbase.py', 'sdc11073/mdib/providermdib.py')
+                  'sdc11073/mdib/mdibbase.py', 'sdc11073/mdib/providermdib.py', 'sdc11073/mdib/transactions.py')
     rule = ('one evaluation = one simulated session in which 1-2 getter tasks issue 6-30 GetMdib / GetMdDescription / '
             'GetMdState(handles) / GetContextStates(handles) requests through the real service clients while 1-3 writer '
             'tasks commit 8-30 seeded transactions; each answer is compared with the provider history entry of the '
@@ -95,6 +95,8 @@ class C07(CheckBase):
         ctx_states = sorted(st.Handle for st in m.context_states.objects)
         ctx_descr = sorted(d.Handle for d in m.descriptions.objects if d.is_context_descriptor)
         mds = sorted(d.Handle for d in m.descriptions.objects if d.parent_handle is None)
+        # handles that come and go while the requests are served
+        volatile = sorted({st['h'] for op in ops if op['k'] == 'descr' for st in op['steps'] if st['a'] in ('delete', 'create')})
         getters = rng.choice([1, 2])
         reqs = []
         for i in range(rng.randint(6, 30 if tier == 'thorough' else 14)):
@@ -106,10 +108,13 @@ class C07(CheckBase):
                 if kind == 'GetContextStates':
                     pool = ctx_states * 3 + ctx_descr * 3 + mds + ['unknown.handle']
                 handles = [rng.choice(pool) for _ in range(rng.randint(1, 4))]
+                if volatile and rng.random() < 0.5:
+                    handles = [rng.choice(volatile) for _ in range(rng.randint(1, 2))]
             reqs.append({'id': i, 'g': rng.randrange(getters), 'kind': kind, 'handles': handles})
         sub = rng.random() < 0.3
         return {'sched': draw_sched_config(rng), 'world': cfg, 'writers': writers, 'ops': ops, 'getters': getters,
-                'reqs': reqs, 'subscribe': sub, 'stall_after_mdib_lock': rng.choice([0.0, 0.2, 0.5])}
+                'reqs': reqs, 'subscribe': sub, 'stall_after_mdib_lock': rng.choice([0.0, 0.2, 0.5]),
+                'stall_before_mdib_lock': rng.choice([0.0, 0.0, 0.2, 0.4])}
 
     # ------------------------------------------------------------------
     def body(self, ctx):
@@ -130,6 +135,9 @@ class C07(CheckBase):
         if plan.get('stall_after_mdib_lock'):
             # slow-thread fault placed where a handler has collected its data and released the MDIB lock
             s.stall_after(w.mdib.mdib_lock, plan['stall_after_mdib_lock'], (0.002, 0.008))
+        if plan.get('stall_before_mdib_lock'):
+            # ... and where a handler has looked something up and is about to take the MDIB lock
+            s.stall_before(w.mdib.mdib_lock, plan['stall_before_mdib_lock'], (0.002, 0.008))
 
         def writer(wi):
             with worldb.node(worldb.PROVIDER_IP):
@@ -243,10 +251,9 @@ class C07(CheckBase):
                 exp_h = set(ref['descriptors'])
             else:
                 exp_h = set()
-            if kind == 'GetMdDescription' and rq['handles'] and exp_h == set() and got_h:
-                # a handle that exists now but did not at version v (or vice versa) is judged at version v only
-                pass
-            if got_h != exp_h and not (kind == 'GetMdDescription' and rq['handles']):
+            # (GetMdDescription with handles: the library answers with everything if one of the handles names an existing
+            # descriptor and with nothing otherwise - "existing" is judged at the version the answer states)
+            if got_h != exp_h:
                 ctx.violation('C07.selection', f'{kind}:descriptor-set',
                               f'{where}: descriptors {sorted(got_h - exp_h)[:5]} extra, {sorted(exp_h - got_h)[:5]} missing')
 
